@@ -394,6 +394,9 @@ def method_rule_jobs(rng, tier):
                 ("reserved-inter-method-twin", "actor", attr(), impl(["pub fn inter_get_name(&self) -> String { todo!() }"]), "TOKENS", False),
                 ("inter-param-without-interact", "actor", attr(), impl([rng.choice(["pub fn tgt(&self, inter_send: oneshot::Sender<u8>) {}", "pub fn tgt(&mut self, a: u8, inter_recv: oneshot::Receiver<u8>) {}"])]), "DIAG", False),
                 ("inter-param-with-interact", "actor", attr("interact"), impl([rng.choice(["pub fn tgt(&self, inter_send: oneshot::Sender<u8>) {}", "pub fn tgt(&mut self, a: u8, inter_recv: oneshot::Receiver<u8>) {}"])]), "TOKENS", False),
+                # names the model binds itself are refused as parameter names of messaging methods, with and without interact
+                ("param-named-inter-actor", "actor", attr(), impl([rng.choice(["pub fn tgt(&self, inter_actor: u8) {}", "pub fn tgt(&mut self, a: u8, inter_actor: A) -> u8 { 0 }"])]), "DIAG", False),
+                ("param-named-inter-actor-interact", "actor", attr("interact"), impl([rng.choice(["pub fn tgt(&self, inter_actor: u8) {}", "pub fn tgt(&mut self, a: u8, inter_actor: A) -> u8 { 0 }", "pub fn tgt(&self, inter_actor: A, inter_name: String) -> u8 { 0 }"])]), "DIAG", False),
                 ("both-channel-ends", "actor", attr("interact"), impl(["pub fn tgt(&self, inter_send: oneshot::Sender<u8>, inter_recv: oneshot::Receiver<u8>) {}"]), "DIAG", False),
                 ("channel-end-in-returning-method", "actor", attr("interact"), impl([rng.choice(["pub fn tgt(&self, inter_send: oneshot::Sender<u8>) -> u8 { 0 }", "pub fn tgt(&self, a: u8, inter_recv: oneshot::Receiver<u8>) -> u8 { 0 }"])]), "DIAG", False),
                 ("channel-end-wrong-type", "actor", attr("interact"), impl([rng.choice(["pub fn tgt(&self, inter_send: Vec<u8>) {}", "pub fn tgt(&self, inter_recv: Option<u8>) {}", "pub fn tgt(&self, inter_send: oneshot::Receiver<u8>) {}"])]), "DIAG", False),
